@@ -38,7 +38,7 @@ structure Params where
 
 inductive RxErr where
   | eof | unexpectedEOF | recordOverflow | badVersion | badRecordMAC | unexpectedMessage
-  | remoteAlert (code : Nat) | tooManyIgnored | internal
+  | remoteAlert (code : Nat) | tooManyIgnored | noRenegotiation | internal
   deriving Repr, DecidableEq
 
 /-- `c.rawInput` and the transport behind it -/
@@ -128,8 +128,9 @@ def readOne (P : Params) (dec : Dec) (s : Rx) : Step × Rx :=
         else if typ.toNat = P.typeAppData then
           if data.length = 0 then (.retry, s2) else (.ok, { s2 with input := data })
         else if typ.toNat = P.typeHandshake then
-          -- c.hand.Write(data): buffered, nothing is delivered (renegotiation is not supported)
-          if data.length = 0 then (.err .unexpectedMessage, s2) else (.ok, s2)
+          -- after the handshake there is no consumer for handshake messages: refused
+          -- (`if handshakeComplete { … alertNoRenegotiation }`, fix 8b57d0c)
+          if data.length = 0 then (.err .unexpectedMessage, s2) else (.err .noRenegotiation, s2)
         else (.err .unexpectedMessage, s2)
 
 /-- `readRecord()` = `readRecordOrCCS(false)` with its `retryReadRecord` recursion; `fuel`
